@@ -340,8 +340,8 @@ func runC06(c *Ctx, r *Run) {
 		}
 		r.Check("OB-E4", "pkg/protocol.MultiHandler|broadcastHashes-never-deleted", c.Pos(rcv.Pos()), len(deletes) == 0, "a computed broadcast hash stays in the table until the session ends",
 			"entries of "+hashesName+" are deleted at "+strings.Join(deletes, ", ")+": checkBroadcastHash accepts when the reference hash is missing, so the echo comparison for that round silently never runs")
-		r.Check("OB-E4", "pkg/protocol.MultiHandler|broadcastHashes-single-writer", c.Pos(rcv.Pos()), len(updates) == 1 && updates[0].Parent() == rcv, "the per-round broadcast hash is written at exactly one site (receivedAll)", fmt.Sprintf("%d writers of %s", len(updates), hashesName))
-		if len(updates) == 1 && updates[0].Parent() == rcv {
+		r.Check("OB-E4", "pkg/protocol.MultiHandler|broadcastHashes-single-writer", c.Pos(rcv.Pos()), len(updates) == 1, "the per-round broadcast hash is written at exactly one site", fmt.Sprintf("%d writers of %s", len(updates), hashesName))
+		if len(updates) == 1 {
 			mu := updates[0]
 			// value = Sum() of a hash state h; h received WriteAny(...msg.Hash()...) in a slice loop over PartyIDs()
 			// (the hashing may live in a helper of the handler that returns the digest)
@@ -415,6 +415,25 @@ func runC06(c *Ctx, r *Run) {
 						}
 					}
 				}
+			}
+			if !present && mu.Parent() != rcv {
+				// the hash is recorded by a method of its own: every call of it sits behind the passing edge of receivedAll()
+				owner := mu.Parent()
+				calls, behind := 0, 0
+				for _, fn := range funcsOfPkg(c, c.SSA[c.PkgRel("pkg/protocol").Types]) {
+					fn := fn
+					allInstrs(fn, func(in ssa.Instruction) {
+						call, ok := in.(*ssa.Call)
+						if !ok || call.Call.StaticCallee() != owner {
+							return
+						}
+						calls++
+						if ok2, _ := callResultEdgeDominates(fn, "receivedAll", true, call.Block()); ok2 {
+							behind++
+						}
+					})
+				}
+				present = calls > 0 && calls == behind
 			}
 			r.Check("OB-E4", "pkg/protocol.(*MultiHandler).receivedAll|hash-after-all-present", c.Pos(mu.Pos()), present, "the hash is computed only once every participant's broadcast is stored", "no presence check precedes the hash computation")
 		}
